@@ -491,8 +491,15 @@ impl Parse for ArgList {
     }
 }
 
+/// an argument list that is not even a comma-separated list of `name`, `name = expr`, `name(..)`, `expr`: the expander
+/// refuses it while parsing, like a list that names an unknown trait — which is how the model is told
+const MALFORMED_ARGS: &str = "(args ((di \"<malformed>\" none)) none f)";
+
 pub fn derive_ex_args(ts: TokenStream) -> Option<String> {
-    let al = ArgList::parse.parse2(ts).ok()?;
+    let al = match ArgList::parse.parse2(ts) {
+        Ok(a) => a,
+        Err(_) => return Some(MALFORMED_ARGS.into()),
+    };
     let mut items = vec![];
     let mut bound: Option<String> = None;
     let mut dump = false;
@@ -512,7 +519,10 @@ pub fn derive_ex_args(ts: TokenStream) -> Option<String> {
             }
             Arg::Flag(n) => items.push(format!("(di {} none)", q(&n))),
             Arg::List(n, ts) => {
-                let inner = ArgList::parse.parse2(ts).ok()?;
+                let inner = match ArgList::parse.parse2(ts) {
+                    Ok(a) => a,
+                    Err(_) => return Some(MALFORMED_ARGS.into()),
+                };
                 let mut ib: Option<String> = None;
                 let mut id = false;
                 for x in inner.0 {
